@@ -473,14 +473,17 @@ def load_known():
     return json.load(open(p))
 
 
-def write_evidence(pid, tier, seed, level, coverage, wall, violations, assumptions):
-    ensure_dir(os.path.join(VERIF, "evidence"))
+def write_evidence(pid, tier, seed, level, coverage, wall, violations, assumptions, development_run=False):
+    """development_run (--no-prove): the record goes to build/evidence-noprove/, never to
+    /verif/evidence, which holds only what a complete check wrote."""
+    d = os.path.join(BUILD, "evidence-noprove") if development_run else os.path.join(VERIF, "evidence")
+    ensure_dir(d)
     ev = {"property_id": pid, "tier": tier, "seed": seed, "level": level, "coverage": coverage,
           "assumptions": assumptions, "wall_s": round(wall, 2), "violations": violations}
-    tmp = os.path.join(VERIF, "evidence", pid + ".json.tmp")
+    tmp = os.path.join(d, pid + ".json.tmp")
     with open(tmp, "w") as f:
         json.dump(ev, f, indent=1, sort_keys=True)
-    os.replace(tmp, os.path.join(VERIF, "evidence", pid + ".json"))
+    os.replace(tmp, os.path.join(d, pid + ".json"))
 
 
 def compare(ctx, sub, cases, impl_out, model_out, describe=None, property_pred=None, max_report=5):
